@@ -177,6 +177,26 @@ def ob_segment(m: int, length: int, typ: int) -> bool:
     return o1 == o2
 
 
+def ob_many(m: int, length: int, typ: int) -> bool:
+    """a long segment: n KEEPALIVEs followed by one header with symbolic fields - every message is extracted in that one
+    call (nothing waits for more bytes to arrive) and the last header gets the reaction it would get alone"""
+    assume(0 <= m < 256 and 0 <= length < 65536 and 0 <= typ < 256)
+    n = P['n']
+    last = header(m, length, typ)
+    w1 = fresh(S.ESTABLISHED)
+    mark1 = w1.mark()
+    FUEL.reset(3 * n + 40)
+    w1._connected().protocol.dataReceived(S.KEEPALIVE * n + last)
+    o1 = observe(w1, mark1)
+    w2 = fresh(S.ESTABLISHED)
+    mark2 = w2.mark()
+    FUEL.reset(40)
+    w2._connected().protocol.dataReceived(last)
+    o2 = observe(w2, mark2)
+    cover('compared')
+    return o1[0] == ['keepalive_received'] * n + o2[0] and o1[1:] == o2[1:]
+
+
 def ob_terminates(m: int, length: int, typ: int) -> bool:
     """dataReceived returns (loop fuel = unwinding assertion) for any header on a short stream, any state."""
     assume(0 <= m < 256 and 0 <= length < 65536 and 0 <= typ < 256)
@@ -230,6 +250,8 @@ def obligations(tier, seed):
             seen.add(key)
             out.append(ob('C04/segment/%s/cuts=%s' % (kind, 'bytewise' if cs == 'bytewise' else '-'.join(map(str, cs))),
                           'ob_segment', {'kind': kind, 'cuts': cs}, covers=['compared'], cap=150 if quick else 400))
+    for n in ((300,) if quick else (255, 256, 257, 300, 1000)):
+        out.append(ob('C04/many-messages/n=%d' % n, 'ob_many', {'n': n}, covers=['compared'], cap=250 if quick else 600))
     if not quick:
         for kind in ('keepalive', 'update'):
             for st in (S.OPENSENT, S.OPENCONFIRM):
